@@ -296,6 +296,8 @@ func liveViewKeys(r *credx.Rig, kl int, mode credx.Mode, set map[string][]byte, 
 		}
 		for j, pr := range probes {
 			switch {
+			case listed && pr.OK && pr.User == want && !pr.ReplyOK:
+				return fmt.Sprintf("%s client with the key listed for %s is accepted but the server's reply does not make the round trip: %s", trs[j], want, pr.ReplyErr)
 			case listed && !pr.OK:
 				return fmt.Sprintf("%s client with the key listed for %s is refused: %s", trs[j], want, pr.Err)
 			case listed && pr.User != want:
